@@ -1,3 +1,65 @@
 import Driver.Common
-/- stub: model driver for C07 not built yet -/
-def main : IO Unit := Driver.lineLoop (fun _ => "unimplemented")
+import ThriftVerif.Lib.Determinism
+
+/- model driver for C07: one line per op
+     R <content> <np> (<point name> <patch text>)*   → hex of the file content BuildResponse produces
+     D <path> <ni> (<k> <v>)* <nn> (<k> <v>)*         → hex of meta.Marshal(FileDescriptor) with the maps written in the given order
+     N <style> <n> (<name> <id>)*                     → name2id (sorted) and Get(id) per entry after Add in the given order
+-/
+namespace Driver.C07
+open Determinism
+
+def takePairs : Nat → List String → Option (List (Bytes × Bytes) × List String)
+  | 0, rest => some ([], rest)
+  | n + 1, a :: b :: rest => do
+    let x ← VL.hexDecode a
+    let y ← VL.hexDecode b
+    let (ps, rest') ← takePairs n rest
+    pure ((x, y) :: ps, rest')
+  | _, _ => none
+
+def pairsStr (ps : List (Bytes × Bytes)) : String :=
+  if ps.isEmpty then "none" else
+  ",".intercalate (ps.map fun (k, v) => VL.hexEncode k ++ "=" ++ VL.hexEncode v)
+
+def handleLine (line : String) : String :=
+  match VL.toks line with
+  | "R" :: c :: np :: rest =>
+    match VL.hexDecode c, np.toNat? with
+    | some content, some n =>
+      match takePairs n rest with
+      | some (patches, []) => VL.hexEncode (ipReplace (ipTable content patches) content)
+      | _ => "bad-op"
+    | _, _ => "bad-op"
+  | "D" :: p :: ni :: rest =>
+    match VL.hexDecode p, ni.toNat? with
+    | some path, some n =>
+      match takePairs n rest with
+      | some (inc, nn :: rest') =>
+        match nn.toNat? with
+        | some m =>
+          match takePairs m rest' with
+          | some (ns, []) => VL.hexEncode (encFileDescriptor path inc ns)
+          | _ => "bad-op"
+        | none => "bad-op"
+      | _ => "bad-op"
+    | _, _ => "bad-op"
+  | "N" :: style :: n :: rest =>
+    match n.toNat? with
+    | some k =>
+      match takePairs k rest with
+      | some (es, []) =>
+        let rename := if style = "0" then renameNum else renameUnderscore
+        match NS.addAll rename NS.empty es with
+        | none => "crash"
+        | some ns =>
+          let sorted := sortedBy (fun a b => bytesLe a.1 b.1) ns.name2id
+          let gets := es.map fun e => VL.hexEncode ((aLookup e.2 ns.id2name).getD [])
+          s!"ok {pairsStr sorted} {" ".intercalate gets}"
+      | _ => "bad-op"
+    | none => "bad-op"
+  | _ => "bad-op"
+
+end Driver.C07
+
+def main : IO Unit := Driver.lineLoop Driver.C07.handleLine
